@@ -1,12 +1,22 @@
 import Driver.Loop
 import OPM.Model.Wire
 import OPM.Model.Interp
+import OPM.Model.Merge
 namespace Driver.Interp
 open OPM OPM.Wire OPM.Interp
 
 structure DS where
   prog : Prog := #[]
   st : Option St := none
+  ids : Array Nat := #[]
+  sigs : Array String := #[]
+  content : List (Nat × String) := []
+  shared : Bool := true
+  -- the method of a pending edit
+  nprog : Prog := #[]
+  nids : Array Nat := #[]
+  nsigs : Array String := #[]
+  ncontent : List (Nat × String) := []
 
 def parseRat (s : String) : Option Rat :=
   match s.splitOn "/" with
@@ -81,19 +91,40 @@ def observe (size : Nat) (s : St) : String :=
 
 def ensure (d : DS) : St := match d.st with | some s => s | none => init d.prog
 
+def parseNode (prog : Prog) (idx par kind thr kp inProg lid sig : String) : Option (Prog × Nat × String) :=
+  match idx.toNat?, par.toInt?, parseKind kind, natList kp, parseBool inProg, lid.toNat?, decodeStr sig with
+  | some idx, some par, some k, some kp, some ip, some lid, some sig =>
+    let thr? : Option (Option Rat) := if thr = "-" then some none else (parseRat thr).map some
+    match thr? with
+    | none => none
+    | some thr => (addNode prog idx par k thr kp ip).map (fun p => (p, lid, sig))
+  | _, _, _, _, _, _, _ => none
+
 def step (d : DS) (line : String) : DS × String :=
   match fields line with
-  | ["node", idx, par, kind, thr, kp, inProg] =>
-    match idx.toNat?, par.toInt?, parseKind kind, natList kp, parseBool inProg with
-    | some idx, some par, some k, some kp, some ip =>
-      let thr? : Option (Option Rat) := if thr = "-" then some none else (parseRat thr).map some
-      match thr? with
-      | none => (d, "bad-op")
-      | some thr =>
-        match addNode d.prog idx par k thr kp ip with
-        | some p => ({ d with prog := p }, "ok")
-        | none => (d, "bad-op")
-    | _, _, _, _, _ => (d, "bad-op")
+  | ["node", idx, par, kind, thr, kp, inProg, lid, sig] =>
+    match parseNode d.prog idx par kind thr kp inProg lid sig with
+    | some (p, lid, sig) => ({ d with prog := p, ids := d.ids.push lid, sigs := d.sigs.push sig }, "ok")
+    | none => (d, "bad-op")
+  | ["newnode", idx, par, kind, thr, kp, inProg, lid, sig] =>
+    match parseNode d.nprog idx par kind thr kp inProg lid sig with
+    | some (p, lid, sig) => ({ d with nprog := p, nids := d.nids.push lid, nsigs := d.nsigs.push sig }, "ok")
+    | none => (d, "bad-op")
+  | ["line", id, c] =>
+    match id.toNat?, decodeStr c with
+    | some id, some c => ({ d with content := d.content ++ [(id, c)] }, "ok")
+    | _, _ => (d, "bad-op")
+  | ["newline", id, c] =>
+    match id.toNat?, decodeStr c with
+    | some id, some c => ({ d with ncontent := d.ncontent ++ [(id, c)] }, "ok")
+    | _, _ => (d, "bad-op")
+  | ["edit"] =>
+    let mm : OPM.Merge.MM := { m := ⟨d.prog, d.ids, d.sigs, d.content⟩, st := (match d.st with | some s => s | none => init d.prog),
+                               mmShared := d.shared }
+    let (mm', r) := OPM.Merge.edit mm ⟨d.nprog, d.nids, d.nsigs, d.ncontent⟩
+    let d' : DS := { prog := mm'.m.prog, st := some mm'.st, ids := mm'.m.ids, sigs := mm'.m.sigs,
+                     content := mm'.m.content, shared := mm'.mmShared }
+    (d', match r with | .merged => "merged" | .set => "set" | .rejected => "rejected")
   | ["tick", t, sc, bc, tags] =>
     match parseRat t, parseRat sc, parseRat bc, intList tags with
     | some t, some sc, some bc, some tags =>
